@@ -134,6 +134,17 @@ func dumpFn(p *Program, ref string) {
 	}
 	ff := p.Facts(fn)
 	fmt.Printf("== %s (%s) blocks=%d loops=%d\n", FnName(fn), p.Pos(fn.Pos()), len(fn.Blocks), len(ff.loops))
+	for _, lp := range ff.loops {
+		for _, lt := range lp.Latches {
+			fmt.Printf("-- loop (%s) latch block %d\n", ff.loopSpace(lp), lt.Index)
+			for _, a := range ff.Must(lt) {
+				fmt.Printf("     %s\n", a.S)
+			}
+			for _, a := range ff.edgeAtoms(lt, lp.Header) {
+				fmt.Printf("     + %s\n", a)
+			}
+		}
+	}
 	for _, ex := range ff.Exits() {
 		kind := [...]string{"SUCCESS", "REJECT", "TAIL", "PANIC", "UNKNOWN"}[ex.Kind]
 		fmt.Printf("-- exit %s block %d at %s returns %s\n", kind, ex.Block.Index, p.Pos(ex.Pos), trunc(ex.Desc, 120))
